@@ -480,6 +480,159 @@ theorem split_sound (tags : List StageTag) :
     rw [this] at h2
     exact Option.some.inj h2
 
+/-! ### the split with its meaning: ClickHouse prefix, then in-process suffix = the whole pipeline -/
+
+theorem stages_append (E : Env V) (a b : List (StageK V)) (es : List (Entry V)) :
+    Stages.stages E (a ++ b) es = Stages.stages E b (Stages.stages E a es) := by
+  simp only [Stages.stages, List.foldl_append]
+
+theorem stages_proper (E : Env V) (h0 : E.o.isNum [] = false) (ss : List (StageK V)) (es : List (Entry V))
+    (hp : ∀ e ∈ es, e.err = none) : ∀ e ∈ Stages.stages E ss es, e.err = none := by
+  have := stages_meet_logql E h0 ss es hp
+  rw [← this.1]; exact this.2
+
+/-- **what the split function produces** (`GetBreakpoint` + `breakScript` on a pipeline of modelled stages): either
+    nothing is split and no stage is one ClickHouse cannot run, or the pipeline is cut into `ch ++ internal` where no
+    stage of `ch` breaks and `internal` starts with the first breaking stage (`json` without parameters, `logfmt`
+    with or without parameters, `line_format`) -/
+theorem split_shape (ss : List (StageK V)) :
+    match splitPipeline ss with
+    | (ch, some internal) => ch ++ internal = ss ∧ (∀ s ∈ ch, s.tag.breaks = false) ∧
+        ∃ s rest, internal = s :: rest ∧ s.tag.breaks = true
+    | (ch, none) => ch = ss ∧ ∀ s ∈ ss, s.tag.breaks = false := by
+  simp only [splitPipeline, getBreakpoint, Bool.false_and, Bool.false_eq_true, if_false]
+  rcases breakIndex_spec (ss.map StageK.tag) 0 with ⟨h1, h2⟩ | ⟨k, t, hk, h1, h2, h3, h4⟩
+  · simp only [h1, show ((-1 : Int) < 0) from by decide, if_true, true_and]
+    intro s hs
+    exact h2 s.tag (List.mem_map_of_mem hs)
+  · simp only [Nat.zero_add] at h1
+    have hge : ¬ ((k : Int) < 0) := by omega
+    have hk' : k < ss.length := by simpa using hk
+    simp only [h1, hge, if_false, Int.toNat_natCast, List.take_append_drop, true_and]
+    refine ⟨?_, ss[k], ss.drop (k + 1), List.drop_eq_getElem_cons hk', ?_⟩
+    · intro s hs
+      apply h4 s.tag
+      rw [← List.map_take]
+      exact List.mem_map_of_mem hs
+    · have : (ss.map StageK.tag)[k]? = some (ss[k].tag) := by
+        rw [List.getElem?_map, List.getElem?_eq_getElem hk']; rfl
+      rw [this] at h2
+      rw [Option.some.inj h2]; exact h3
+
+/-- **split_sound, with its meaning.** Take any pipeline `ss` of modelled stages over the entries `base` the stream
+    selector yields, and any split `(ch, internal)` the split function produces. Let ClickHouse return what the
+    LogQL definition says for the prefix `ch` (the specification side of C07/C08), cut into messages in any way.
+    Then the in-process stages `internal` applied to those messages give the LogQL definition of the **whole**
+    pipeline `ss`. -/
+theorem split_sound_pipeline (E : Env V) (h0 : E.o.isNum [] = false) (ss ch internal : List (StageK V))
+    (hsplit : splitPipeline ss = (ch, some internal)) (base : List (Entry V)) (hp : ∀ e ∈ base, e.err = none)
+    (bs : Batches V) (hbs : bs.flatten = Stages.stages E ch base) :
+    (runStages E internal bs).flatten = Stages.stages E ss base := by
+  have hcat : ch ++ internal = ss := by
+    have := split_shape ss
+    rw [hsplit] at this
+    exact this.1
+  have hpb : ∀ e ∈ bs.flatten, e.err = none := by rw [hbs]; exact stages_proper E h0 ch base hp
+  rw [batching_invariant_stages, (stages_meet_logql E h0 internal bs.flatten hpb).1, hbs, ← stages_append, hcat]
+
+/-- **split_sound for whole plans**: the in-process plan over the ClickHouse result of the prefix is, series by
+    series, the LogQL reading of the *unsplit* query (all stages, then the aggregations / the limit) over `base` -/
+theorem split_sound_plan (E : Env V) (h0 : E.o.isNum [] = false) (c : Read.Ctx) (p : Plan V) (ch internal : List (StageK V))
+    (hsplit : splitPipeline p.stages = (ch, some internal)) (base : List (Entry V)) (hp : ∀ e ∈ base, e.err = none)
+    (bs : Batches V) (hbs : bs.flatten = Stages.stages E ch base)
+    (hok : p.agg.isSome = true → MetricOk E c { p with stages := internal } bs.flatten) (f : UInt64) :
+    (runPlan E c { p with stages := internal } bs).flatten.filter (fun e => e.fp == f) =
+      (evalPlan E c p base).flatten.filter (fun e => e.fp == f) := by
+  have hcat : ch ++ internal = p.stages := by
+    have := split_shape p.stages
+    rw [hsplit] at this
+    exact this.1
+  have hpb : ∀ e ∈ bs.flatten, e.err = none := by rw [hbs]; exact stages_proper E h0 ch base hp
+  rw [plan_meets_logql E h0 c { p with stages := internal } bs hpb hok f]
+  have : evalPlan E c { p with stages := internal } bs.flatten = evalPlan E c p base := by
+    simp only [evalPlan, hbs, ← stages_append, hcat]
+  rw [this]
+
+/-- a modelled stage as a stage of `LogQL.Sem` (the fragment C07 proves the SQL against): line and label filters -/
+def semStage? : StageK V → Option LogQL.Stage
+  | .line op val => some (.line ⟨op, val, none⟩)
+  | .labelFilter lc => some (.label lc)
+  | _ => none
+
+/-- the ClickHouse side of the split for the fragment C07 covers: a prefix of line and label filters (the reading
+    without the LIKE shortcut) applied to what the selector yields is what ClickHouse returns for the query extended
+    by those filters (`LogQL.Sem`, under `SeriesTableOk`) — so in `split_sound_pipeline` the hypothesis `hbs` is
+    "the messages are the ClickHouse result of the prefix query" -/
+theorem prefix_is_clickhouse_query (E : Env V) (c : LogQL.Ctx) (d : LokiDb) (hd : SeriesTableOk c d)
+    (ch : List (StageK V)) (sem : List LogQL.Stage) (hsem : ch.mapM semStage? = some sem) (q : LogQuery) :
+    Stages.stages E ch (upstream E.num E.o c d q) = upstream E.num E.o c d (sem.foldl withStage q) := by
+  induction ch generalizing q sem with
+  | nil =>
+    simp only [List.mapM_nil, Option.pure_def, Option.some.injEq] at hsem
+    subst hsem; rfl
+  | cons s rest ih =>
+    simp only [List.mapM_cons, Option.pure_def, Option.bind_eq_bind] at hsem
+    cases hs : semStage? s with
+    | none => simp [hs] at hsem
+    | some st =>
+      cases hr : rest.mapM semStage? with
+      | none => simp [hs, hr] at hsem
+      | some sem' =>
+        simp only [hs, hr, Option.bind_some, Option.some.injEq] at hsem
+        subst hsem
+        simp only [Stages.stages, List.foldl_cons]
+        have hstep : Stages.stage E s (upstream E.num E.o c d q) = upstream E.num E.o c d (withStage q st) := by
+          cases s with
+          | line op val =>
+            simp only [semStage?, Option.some.injEq] at hs; subst hs
+            simp only [Stages.stage, lineStage]
+            exact upstream_line E.num E.o c d q ⟨op, val, none⟩
+          | labelFilter lc =>
+            simp only [semStage?, Option.some.injEq] at hs; subst hs
+            simp only [Stages.stage, labelStage]
+            exact upstream_label E.num E.o c d hd q lc
+          | parser k => simp [semStage?] at hs
+          | labelFormat ops => simp [semStage?] at hs
+          | lineFormat t => simp [semStage?] at hs
+          | drop ns vs => simp [semStage?] at hs
+          | unwrap l => simp [semStage?] at hs
+        rw [hstep]
+        exact ih sem' hr (withStage q st)
+
+/-- **why the split needs a freshly parsed script.** `breakScript` cuts the pipeline of the script object it is given
+    (`splitSlices`, `splitMutations`); after `Plan` that object holds only `internal`. Splitting it again — which is
+    what planning the same object a second time would do — sends *nothing* of the original prefix to ClickHouse:
+    the filters in `ch` would silently disappear from the query. -/
+theorem resplit_loses_prefix (ss ch internal : List (StageK V)) (hsplit : splitPipeline ss = (ch, some internal)) :
+    splitPipeline internal = ([], some internal) := by
+  have hsh := split_shape ss
+  rw [hsplit] at hsh
+  obtain ⟨_, _, s, rest, hint, hbr⟩ := hsh
+  subst hint
+  simp [splitPipeline, getBreakpoint, breakIndex, hbr]
+
+/-- the assumption under which that cannot happen, as the source has it now: the only caller of `Plan` is
+    `Transpile`, which parses the query text and plans the fresh script once; `logql_parser.Parse` builds a parser
+    and parses, it keeps nothing; the package-level variables of `logql_parser` are the two lexer definitions (no
+    cache of parsed scripts); `Plan` calls `GetBreakpoint`, then `breakScript` once, and plans the two halves. -/
+theorem split_assumption_fresh_script :
+    Gen.InternalParams.splitSlices = ["_script.Pipelines[:breakpoint]", "_script.Pipelines[breakpoint:]"] ∧
+    Gen.InternalParams.splitMutations = ["_script.Pipelines = _script.Pipelines[breakpoint:]",
+      "_script.StrSel = logql_parser.StrSelector{}"] ∧
+    Gen.InternalParams.planCalls = ["GetBreakpoint(script)", "clickhouse_planner.Plan(script, true)",
+      "breakScript(breakpoint, script, script)", "clickhouse_planner.Plan(chScript, false)",
+      "internal_planner.Plan(internalScript, proc)"] ∧
+    Gen.InternalParams.planCallers = ["transpiler.go:Transpile"] ∧
+    Gen.InternalParams.planCallersOutside = [] ∧
+    Gen.InternalParams.transpileBody = ["oScript, err := logql_parser.Parse(script)", "if err != nil { return nil, err }",
+      "return Plan(oScript)"] ∧
+    Gen.InternalParams.parseBody = ["parser, err := participle.Build[LogQLScript](participle.Lexer(LogQLLexerDefinition), participle.UseLookahead(2))",
+      "if err != nil { return nil, err }", "res, err := parser.ParseString(\"\", str+\" \")", "return res, err"] ∧
+    Gen.plannerGlobals.filter (fun g => g.startsWith "reader/logql/logql_parser.") =
+      ["reader/logql/logql_parser.LogQLLexerDefinition", "reader/logql/logql_parser.LogQLLexerRulesV2"] := by
+  refine ⟨rfl, rfl, rfl, rfl, rfl, rfl, rfl, ?_⟩
+  decide +kernel
+
 /-! ## 4. series identity -/
 
 /-- **distinct_sets_distinct_series.** The texts handed to CityHash for the labels of a set determine the set:
